@@ -52,6 +52,20 @@ def rule_pairs_collapse(ctx) -> RuleResult:
     res.inst(f"chunk_reduce: _collapse_axis applied to {[norm(c.args[0]) for c in cs]} with naxis {sorted(ns)}", "collapse")
     if len(ns) != 1:
         res.report("core.chunk_reduce|collapse-pair", f.where(cs[0]), f.qualname, f"labels and values are collapsed over different numbers of axes: {sorted(ns)}")
+    # the labels may be reshaped / collapsed / broadcast, but never *sampled*: rebinding them to one of their own slices (by[0]) throws the
+    # labels of every other kept slice away -- sound only if all slices are equal, which a comparison of two of them does not establish
+    lab = next((norm(c.args[0]) for c in cs if isinstance(c.args[0], ast.Name) and c.args[0].id != f.params[0]), None)
+    if lab is not None:
+        for a in walk_own(f.node):
+            if isinstance(a, ast.Assign) and any(isinstance(t, ast.Name) and t.id == lab for t in a.targets):
+                sampled = [x for x in ast.walk(a.value) if isinstance(x, ast.Subscript) and isinstance(x.value, ast.Name) and x.value.id == lab
+                           and not isinstance(x.slice, (ast.Slice, ast.Tuple)) and not (isinstance(x.slice, ast.Constant) and x.slice.value is Ellipsis)
+                           and (isinstance(x.slice, ast.Constant) or (isinstance(x.slice, ast.UnaryOp) and isinstance(x.slice.operand, ast.Constant)))]
+                res.inst(f"chunk_reduce: labels rebound by '{norm(a)[:50]}': keeps every slice: {not sampled}", f"rebind|{a.lineno}")
+                if sampled:
+                    res.report(f"core.chunk_reduce|labels-sampled|{norm(sampled[0])}", f.where(a), f.qualname,
+                               f"'{norm(a)[:60]}' replaces the labels by one of their slices ({norm(sampled[0])}): every other kept slice is then reduced with the "
+                               "labels of that one (a first-equals-last test does not show that the slices in between are equal)")
     return res
 
 
